@@ -612,7 +612,12 @@ def r_samples_voxel(rule, root=None):
     fn = worker_fn(VOX, "render_tile_pixels", root)
     t = txt(fn["body"])
     need = [
-        ("column (i, j) from the flat index", "forxyin0..tile_size.pow(2){leti=(xy%tile_size);letj=(xy/tile_size);"),
+        ("column (i, j) from the flat index", [
+            "forxyin0..tile_size.pow(2){leti=(xy%tile_size);letj=(xy/tile_size);",
+            # the same enumeration written as two loops: xy = j * size + i with i the fast index
+            "forjin0..tile_size{foriin0..tile_size{letxy=((j*tile_size)+i);",
+            "forjin0..tile_size{foriin0..tile_size{letxy=(i+(j*tile_size));",
+        ]),
         ("voxels of a column are visited top down", "forkin(0..tile_size).rev(){"),
         ("x sample = corner.x + i", "*self.scratch.x.get_unchecked_mut(index)=((tile.corner[0]+i)asf32);"),
         ("y sample = corner.y + j", "*self.scratch.y.get_unchecked_mut(index)=((tile.corner[1]+j)asf32);"),
@@ -685,7 +690,16 @@ def r_samples_voxel(rule, root=None):
     # every covered pixel already at or above the tile's top: `all(all(depth >= top))`, or its De Morgan twin
     # `!any(any(depth < top))` (the comparison is on unsigned integers)
     folded = txt(A.inline_lets_deep(rf["body"]))
-    early = (
+    # the row-offset helper read in place (so that keeping or inlining it is the same text)
+    tin = txt(A.inline_helpers(rf))
+    ROW = "self.tile_sizes.pixel_offset(tile.add(Vector2::new(0,$Y)))"
+    early_inl = any(tin.fmatch(f_.replace("self.tile_row_offset(tile,$Y)", ROW)) is not None for f_ in (
+        "if(0..tile_size).all(|$Y|{let$I={%s};(0..tile_size).all(|$X|(self.out[($I+$X)].depth>=fill_z))}){returnfalse;}" % "self.tile_row_offset(tile,$Y)",
+        "if(0..tile_size).all(|$Y|{let$I=self.tile_row_offset(tile,$Y);(0..tile_size).all(|$X|(self.out[($I+$X)].depth>=fill_z))}){returnfalse;}",
+        "if!(0..tile_size).any(|$Y|{let$I=self.tile_row_offset(tile,$Y);(0..tile_size).any(|$X|(self.out[($I+$X)].depth<fill_z))}){returnfalse;}",
+        "if!(0..tile_size).any(|$Y|{let$I={%s};(0..tile_size).any(|$X|(self.out[($I+$X)].depth<fill_z))}){returnfalse;}" % "self.tile_row_offset(tile,$Y)",
+    ))
+    early = early_inl or (
         t.fmatch("if(0..tile_size).all(|$Y|{let$I=self.tile_row_offset(tile,$Y);(0..tile_size).all(|$X|(self.out[($I+$X)].depth>=fill_z))}){returnfalse;}") is not None
         or t.fmatch("let$U=(0..tile_size).any(|$Y|{let$I=self.tile_row_offset(tile,$Y);(0..tile_size).any(|$X|(self.out[($I+$X)].depth<fill_z))});if!$U{returnfalse;}") is not None
         or t.fmatch("if!(0..tile_size).any(|$Y|{let$I=self.tile_row_offset(tile,$Y);(0..tile_size).any(|$X|(self.out[($I+$X)].depth<fill_z))}){returnfalse;}") is not None
